@@ -195,6 +195,10 @@ func runC10(c C10Case, o *run.Obs) error {
 				interesting = true
 			}
 		}
+		if serr != nil && size == 0 && !strings.Contains(serr.Error(), "panicked") {
+			o.Label("empty-tree:placement-returned-an-error(not-judged)")
+			continue
+		}
 		if serr != nil {
 			return fmt.Errorf("[%s] walk %d: %s on a tree of %d entries failed: %w", c.Cfg, wi, what, size, serr)
 		}
